@@ -43,3 +43,26 @@ pub fn coq_nums<I: IntoIterator<Item = u64>>(it: I) -> String {
 pub fn node_name(rank: u64) -> String {
     format!("n{:010}@host", rank)
 }
+
+/// C17: the cookie with index `k`. 0..=2 are the short cookies "cookie<k>"; k >= 100 encodes a
+/// structured family (length L from C17_COOKIE_LENS, variant v): k = 100 + 4*len_index + v with
+/// v=0 the base string of length L, v=1 the base with its LAST byte changed, v=2 the base with the
+/// byte at offset 60 (offset 0 if L <= 60) changed, v=3 the base followed by one more byte.
+/// All indices used by the checks (v in {1,2} only for L >= 1) denote pairwise different strings.
+pub const C17_COOKIE_LENS: [usize; 10] = [0, 1, 31, 32, 59, 60, 61, 64, 65, 200];
+pub fn c17_cookie(k: u64) -> String {
+    if k < 100 {
+        return format!("cookie{k}");
+    }
+    let idx = (k - 100) as usize;
+    let l = C17_COOKIE_LENS[(idx / 4) % C17_COOKIE_LENS.len()];
+    let v = idx % 4;
+    let mut b: Vec<u8> = (0..l).map(|i| b'a' + ((i * 7 + 3) % 23) as u8).collect();
+    match v {
+        1 if l >= 1 => b[l - 1] = b'y',
+        2 if l >= 1 => b[if l > 60 { 60 } else { 0 }] = b'z',
+        3 => b.push(b'x'),
+        _ => {}
+    }
+    String::from_utf8(b).unwrap()
+}
